@@ -179,6 +179,37 @@ def run_tables(col, slice_k=None, nslices=1):
     col.exhaustive = True
 
 
+def run_derived(col):
+    """tables that were USED (hashed, compared, rendered) before a builder call derives another table from them: the derived table must be
+    indistinguishable - by ==, hash and membership - from one built directly"""
+    import pypika_tortoise as P
+
+    for spec, dims in table_variants():
+        if dims[2] is not None or dims[3] != 0:
+            continue  # start from tables without alias and temporal clause
+        for how in ("as_", "for_", "for_portion"):
+            base = build_src(spec)
+            hash(base), base == base, str(base), {base}  # noqa: B018 - the table has a history before the call
+            if how == "as_":
+                derived = base.as_("dz")
+                direct = build_src(spec[:3] + ["dz"] + spec[4:])
+            elif how == "for_":
+                crit = P.Field("valid").between(1, 2)
+                derived = base.for_(crit)
+                direct = build_src(spec).for_(crit)
+            else:
+                crit = P.Field("valid").from_to(1, 2)
+                derived = base.for_portion(crit)
+                direct = build_src(spec).for_portion(crit)
+            la, lb = "T%r.%s(..) after use" % (dims, how), "the same table built directly"
+            case = {"mode": "derived", "spec": spec, "how": how}
+            col.case(case, True, classes=("derived_table:" + how,))
+            for sig, detail in check_pair(la, derived, lb, direct, derived, "derived:" + how):
+                col.violation(sig, case, detail)
+            if not safe_eq(derived, direct):
+                col.violation(mksig("Table", "identity", "derived:" + how), case, "%s != %s" % (la, lb))
+
+
 def run_others(col):
     vs = other_variants()
     for (la, fa), (lb, fb) in itertools.product(vs, vs):
@@ -356,9 +387,11 @@ def check_case(case):
         k = _pair_kind(case)
         k = "temporal" if "temporal" in k else k
         return [(s.rsplit("|", 1)[0] + "|" + k, d) for s, d in res]
-    if m in ("table_triple", "table_pool", "other_pair", "other_triple"):
+    if m in ("table_triple", "table_pool", "other_pair", "other_triple", "derived"):
         col = Collector()
-        if m.startswith("table"):
+        if m == "derived":
+            run_derived(col)
+        elif m.startswith("table"):
             run_tables(col)
         else:
             run_others(col)
@@ -405,6 +438,7 @@ def run_shard(shard):
         return col
     if kind == "others":
         run_others(col)
+        run_derived(col)
         return col
     nex = 500 if tier == "quick" else 8000
 
